@@ -189,6 +189,11 @@ static void run(void) {
             case_poly(F3W[i]);
             vf_add("witness.F3_cases", 1);
         }
+    /* witness of the repaired defect F9 (bboxHexEstimate, transmeridian box near a pole): an ordinary case now */
+    if (VF_MINE(8)) {
+        case_poly(0x6778d10bba79cd46ULL);
+        vf_add("witness.F9_cases", 1);
+    }
     int n = VF_T(2500, 40000);
     for (int i = 0; i < n; i++) case_poly(vf_u64(&r));
     vf_add("polygons", n_poly);
